@@ -596,7 +596,9 @@ class Stage:
                     value = value.reshape((1, value.shape[0]))
                 if isinstance(value, DM) and value.shape[0]==1 and value.shape[1]>1:
                     value = value.T
-            self._initial[var] = value
+            # (a private copy: the caller may go on modifying the array it passed)
+            from copy import deepcopy
+            self._initial[var] = deepcopy(value)
             if priority:
                 self._initial.move_to_end(var, last=False)
         for_all_primitives(var, value, action, "First argument to set_initial must be a variable/signal or a simple concatenation of variables/signals")
@@ -654,12 +656,11 @@ class Stage:
         >>> x = ocp.state()
         >>> ocp.set_next(x, -x)
         """
+        assert not self._state_der
         self._set_transcribed(False)
-        self._state_next[state] = next
         def action(state, next):
             self._state_next[state] = next
         for_all_primitives(state, next, action, "First argument to set_next must be a state or a simple concatenation of states")
-        assert not self._state_der
 
     def add_alg(self, constr, scale=1):
         self._set_transcribed(False)
@@ -924,10 +925,10 @@ class Stage:
 
         """
         assert not self.is_signal(term), "An objective cannot be a signal. You must use ocp.integral or ocp.at_t0/tf to remove the time-dependence"
-        self._set_transcribed(False)
-        self._objective = self._objective + term
         if not MX(term).is_scalar():
             raise Exception("Objective terms must be scalar, got " + str(MX(term).dim())+ ".")
+        self._set_transcribed(False)
+        self._objective = self._objective + term
 
     def method(self, method):
         """Specify the transcription method
